@@ -2,6 +2,7 @@ package main
 
 import (
 	"fmt"
+	"go/ast"
 	"go/types"
 	"sort"
 	"strings"
@@ -735,4 +736,37 @@ func (e *Enc) copyOp(x *ssa.Call, st *State) {
 	e.emitDecl(fmt.Sprintf("(define-fun %s () %s (store %s %s %s))", nh, e.heapSort(so), h, d.L[0], arr))
 	st.H[so] = nh
 	e.bind(x, Val{T: x.Type(), L: []string{n}})
+}
+
+// directGhostMods: the ghost variables updated at the call sites of fn itself: those listed under `modifies` in the
+// contracts of the functions it calls (statically, or through an interface method with a contract). Ghost variables are
+// instrumentation of the call sites inside functions under contract: what an uncontracted callee does inside is not
+// instrumented. A function under contract must list every ghost variable updated at its own call sites in its own
+// `modifies` (obligation #ghost-frame), so that its callers see the update together with what its ensures say about it.
+func (e *Enc) directGhostMods(fn *ssa.Function) map[string]bool {
+	out := map[string]bool{}
+	for _, b := range fn.Blocks {
+		for _, ins := range b.Instrs {
+			c, ok := ins.(ssa.CallInstruction)
+			if !ok {
+				continue
+			}
+			if _, isB := c.Common().Value.(*ssa.Builtin); isB {
+				continue
+			}
+			_, key := e.calleeOf(c)
+			ct := e.contractFor(key)
+			if ct == nil {
+				continue
+			}
+			for _, mc := range ct.Modifies {
+				if id, ok := mc.Expr.(*ast.Ident); ok {
+					if _, isGhost := e.CS.Ghosts[id.Name]; isGhost {
+						out[id.Name] = true
+					}
+				}
+			}
+		}
+	}
+	return out
 }
